@@ -144,19 +144,19 @@ End Conservation.
 Lemma first_arity_scalar p : Forall (consistent Scalar) p -> first_arity p = None \/ first_arity p = Some 1%nat.
 Proof.
   induction 1 as [|j t Hj Ht IH]; cbn [first_arity]; [left; reflexivity|].
-  unfold consistent in Hj. unfold arity1. destruct (objective_of j) as [[z| | |]|s|l]; try contradiction; auto.
+  unfold consistent in Hj. unfold arity1. destruct (objective_of j) as [[z| | |]|s|l|]; try contradiction; auto.
 Qed.
 
 Lemma first_arity_vec m p : Forall (consistent (Vec m)) p -> first_arity p = None \/ first_arity p = Some m.
 Proof.
   induction 1 as [|j t Hj Ht IH]; cbn [first_arity]; [left; reflexivity|].
-  unfold consistent in Hj. unfold arity1. destruct (objective_of j) as [[z| | |]|s|l]; try contradiction; auto.
+  unfold consistent in Hj. unfold arity1. destruct (objective_of j) as [[z| | |]|s|l|]; try contradiction; auto.
 Qed.
 
 Lemma first_arity_tuple m p : Forall (consistent (Vec m)) p -> existsb is_tuple_job p = true -> first_arity p = Some m.
 Proof.
   induction 1 as [|j t Hj Ht IH]; cbn [first_arity existsb]; [discriminate|].
-  unfold consistent in Hj. unfold is_tuple_job, arity1. destruct (objective_of j) as [[z| | |]|s|l]; try contradiction; cbn [orb].
+  unfold consistent in Hj. unfold is_tuple_job, arity1. destruct (objective_of j) as [[z| | |]|s|l|]; try contradiction; cbn [orb].
   - exact IH.
   - intros _. congruence.
 Qed.
@@ -169,7 +169,7 @@ Proof.
   { destruct (is_tuple_job j) eqn:E; [|reflexivity].
     assert (existsb is_tuple_job p = true) by (apply existsb_exists; exists j; auto). congruence. }
   unfold consistent in HF. unfold is_tuple_job in Ht.
-  destruct (objective_of j) as [[z| | |]|s|l]; try contradiction; try discriminate. exists s. reflexivity.
+  destruct (objective_of j) as [[z| | |]|s|l|]; try contradiction; try discriminate. exists s. reflexivity.
 Qed.
 
 Lemma infer_weak k n p : weakn k n -> Forall (consistent k) p -> weakn k (infer_fixed n p).
@@ -280,7 +280,7 @@ Section Faithful.
                 specialize (Hnone Hin). apply orb_false_iff in Hnone as [Hnone _].
                 rewrite Forall_forall in Hcons. rewrite <- Ep in Hcons. specialize (Hcons jt Hjt).
                 unfold consistent in Hcons. unfold is_tuple_job in Htup.
-                destruct (objective_of jt) as [x|x|l] eqn:Eo; try discriminate.
+                destruct (objective_of jt) as [x|x|l|] eqn:Eo; try discriminate.
                 cbn [kind_wf] in Hwf. rewrite (is_success_tuple n jt l Eo) in Hnone; [discriminate|lia].
              ++ destruct fl.
                 ** rewrite Ep in Hhh. discriminate.
